@@ -210,7 +210,17 @@ func (c *Real32) Pow(a, k ConstScalar) Scalar {
 }
 /* -------------------------------------------------------------------------- */
 func (c *Real32) Sqrt(a ConstScalar) Scalar {
-  return c.Pow(a, ConstFloat64(0.5))
+  x := a.GetFloat64()
+  y := 0.5
+  // math.Pow(-Inf, 0.5) is +Inf
+  v0 := math.Sqrt(x)
+  f1 := func() (float64) {
+    return math.Pow(x, y-1)*y
+  }
+  f2 := func() (float64) {
+    return math.Pow(x, y-2)*(y - 1)*y
+  }
+  return c.monadicLazy(a, v0, f1, f2)
 }
 /* -------------------------------------------------------------------------- */
 func (c *Real32) Sin(a ConstScalar) Scalar {
